@@ -404,6 +404,42 @@ def boost_exemptions(rng, case):
     return case
 
 
+def boost_git_violation(rng, case):
+    """a git-revision package audited as crates.io, certified AT its git version (exemption, full audit or
+    delta endpoint), and a violation whose range covers the semver part of that version"""
+    store = case["store_struct"]
+    pkgs = case["graph"]["packages"]
+    notes = Notes()
+    notes.n = 2700
+    crits = _crits(store)
+    cands = [p for p in pkgs if p["source"].startswith("git:") and not p["workspace"]]
+    if not cands:
+        return case
+    p = rng.choice(cands)
+    same = [q for q in pkgs if q["name"] == p["name"]]
+    key = p["name"] if len(same) == 1 else f"{p['name']}:{vstr(p)}"
+    if len(same) > 1:
+        for k in [k for k in store["policy"] if k == p["name"]]:
+            del store["policy"][k]
+        for q in same:
+            store["policy"].setdefault(f"{q['name']}:{vstr(q)}", {})
+    store["policy"].setdefault(key, {})["audit-as-crates-io"] = True
+    n, gv = p["name"], vstr(p)
+    every = ["safe-to-deploy"] + [c for c in crits if c not in BUILTINS]
+    r = rng.random()
+    if r < 0.4:
+        store["exemptions"].setdefault(n, []).append({"version": gv, "criteria": every, "suggest": True, "notes": notes()})
+    elif r < 0.7:
+        store["audits"].setdefault(n, []).append({"kind": "full", "version": gv, "criteria": every, "notes": notes()})
+    else:
+        base = rng.choice([x for x in VERSIONS if x != p["version"]])
+        store["audits"].setdefault(n, []).append({"kind": "full", "version": base, "criteria": every, "notes": notes()})
+        store["audits"][n].append({"kind": "delta", "from": base, "to": gv, "criteria": every, "notes": notes()})
+    req = rng.choice(["*", "=" + p["version"], ">=" + p["version"]])
+    store["audits"].setdefault(n, []).append({"kind": "violation", "violation": req, "criteria": crit_list(rng, crits), "notes": notes()})
+    return case
+
+
 def boost_dense_success(rng, case):
     """a store that vets (everything exempted at its exact version) except for one crate, which gets a
     dense web of delta audits carrying every criterion — diamonds, back edges, several alternative
@@ -550,6 +586,10 @@ def gen_unlocked_case(rng, cid, p_violation=0.05, ncustom=None):
         imp = {"url": [url]}
         if cmap:
             imp["criteria-map"] = cmap
+        if rng.random() < 0.3:
+            # crates excluded from this import; the peer still serves entries for them and imports.lock may
+            # still hold some from before the exclusion
+            imp["exclude"] = rng.sample(names, min(len(names), rng.choice([1, 1, 2])))
         store["imports"][peer] = imp
         pf = {"criteria": ptable, "audits": {}, "wildcard_audits": {}, "trusted": {}}
         lockf = {"criteria": {k: {"description": ptable[k]["description"]} for k in ptable if k in cmap},
@@ -744,6 +784,15 @@ def boost_unpublished(rng, pkgs, store, reg, crits, notes):
     else:
         return
     store["policy"].setdefault(p["name"], {})["audit-as-crates-io"] = True
+    if rng.random() < 0.25:
+        # variant: crates.io DOES serve the exact version (next to an earlier one); only the earlier one is audited,
+        # so the crate must fail vetting and nothing may be recorded as "unpublished"
+        published = [x for x in published if VERSIONS.index(x) < i][:1] + [v]
+        if len(published) == 2:
+            reg[p["name"]] = [{"version": x, "by": rng.choice([1, 2, 3]), "when": rng.choice(DATES[:6])} for x in published]
+            store["audits"].setdefault(p["name"], []).append(
+                {"kind": "full", "version": published[0], "criteria": ["safe-to-deploy"] + [c for c in crits if c not in BUILTINS], "notes": notes()})
+            return p["name"]
     reg[p["name"]] = [{"version": x, "by": rng.choice([1, 2, 3]), "when": rng.choice(DATES[:6])} for x in sorted(published, key=VERSIONS.index)]
     recs = [{"version": v, "audited_as": old}]
     if rng.random() < 0.3:
